@@ -446,7 +446,7 @@ def run(ctx):
             r = ctx.tlc('MC_StaticRoute', 'MC_StaticRouteWide3.cfg', coverage=True, workers=6, timeout=600)
             ctx.require_coverage(r, path_actions)
         else:
-            r = ctx.tlc('MC_StaticRoute', 'MC_StaticRouteEmit4.cfg', workers=8, timeout=1200)
+            r = ctx.tlc('MC_StaticRoute', 'MC_StaticRouteWide4.cfg', workers=8, timeout=1200)
         res['wide'] = r
 
     def m_more():
@@ -455,7 +455,6 @@ def run(ctx):
         else:
             r = ctx.tlc('MC_StaticRoute', 'MC_StaticRouteWide3.cfg', coverage=True, workers=4, timeout=600, count=False)
             ctx.require_coverage(r, path_actions)
-            ctx.tlc('MC_StaticRoute', 'MC_StaticRouteWide4.cfg', workers=8, timeout=1500)
             ctx.tlc('MC_StaticRoute', 'MC_StaticRouteTrav5.cfg', workers=8, timeout=1500)
 
     def m_wrong():
@@ -526,15 +525,17 @@ def run(ctx):
         # ---- leg A: TLC's cases + outcomes replayed on the real route -------------------------------
         range_cases = list({digest(j['c']): j for j in r.json if j.get('t') == 'case'}.values())
         replay_cases(range_cases, ctx.pick(4, 1), 'range/ims')
+        ctx.samples = ctx.samples[:2]            # leave room for a path sample and a random one
         rw = wait('wide')
         path_cases = list({digest(j['c']): j for j in rw.json if j.get('t') == 'case'}.values())
         ctx.progress('wide model done (%d states, %d cases)' % (rw.distinct, len(path_cases)))
-        replay_cases(path_cases, ctx.pick(6, 4), 'paths')
+        replay_cases(path_cases, ctx.pick(6, 5), 'paths')
+        ctx.samples = ctx.samples[:4]
         ctx.extra['spec_cases_replayed'] = {'range_ims': len(range_cases), 'paths': len(path_cases)}
         judge_and_report(ctx, mismatches, 'leg A (spec case differs on the code)')
 
         # ---- leg B: random requests beyond the bound, judged by TLC ----------------------------------
-        nb = ctx.pick(14000, 260000)
+        nb = ctx.pick(14000, 220000)
         groups = {}
         for i in range(nb):
             c = rand_case(rng)
